@@ -269,6 +269,12 @@ type Difference struct {
 	// WantChain lists the nodes of the want side that enclose the
 	// difference, innermost first.
 	WantChain []*Tree
+	GotChain  []*Tree
+	// Cont is 1+index of a statement-container site when the difference lies
+	// in the container's statement list but outside the rewritten instance;
+	// ContGot is the got-side container.
+	Cont    int
+	ContGot *Tree
 }
 
 func (d *Difference) String() string {
@@ -324,6 +330,20 @@ func diffPath(want, got *Tree, m Mode, path []string) *Difference {
 			if inSpan {
 				d.Site = want.Site
 				d.SiteGot = got
+			} else if d.Cont == 0 {
+				// Only differences in the list elements themselves count as
+				// "around the instance"; a difference inside a container
+				// nested in an element belongs to that container.
+				nested := false
+				for _, e := range d.Path[len(path)+2:] {
+					if e == "BlockStmt.List" || e == "CaseClause.Body" || e == "CommClause.Body" {
+						nested = true
+					}
+				}
+				if !nested {
+					d.Cont = want.Site
+					d.ContGot = got
+				}
 			}
 		}
 		return d
@@ -373,6 +393,7 @@ func diffPath(want, got *Tree, m Mode, path []string) *Difference {
 					d.GotNode = got
 				}
 				d.WantChain = append(d.WantChain, want)
+				d.GotChain = append(d.GotChain, got)
 				return d
 			}
 		}
@@ -539,4 +560,24 @@ func ContainsIdentPrefix(t *Tree, prefix string) bool {
 		}
 		return false
 	})
+}
+
+// CountIdentPrefix counts identifiers (and string literals) carrying prefix.
+func CountIdentPrefix(t *Tree, prefix string) int {
+	n := 0
+	Walk(t, func(x *Tree) bool {
+		if x.Kind == KAlt {
+			return false
+		}
+		if name, ok := x.IsIdent(); ok && strings.HasPrefix(name, prefix) {
+			n++
+		}
+		if x.Kind == KNode && x.TypeName() == "BasicLit" {
+			if v := x.Field("Value"); v != nil && strings.Contains(v.Leaf, prefix) {
+				n++
+			}
+		}
+		return true
+	})
+	return n
 }
